@@ -133,7 +133,7 @@ META = {
         "design_ref": "DESIGN.md §4 C01",
     },
     "C02": {
-        "text": "Theorems over every interleaving (inductive `Reach`, unbounded) of the waiter's take / register / re-check / block / final-take steps with the completer's insert / notify steps and the passing of the deadline: a returned value is the task's own outcome (C02_own_result), a finished task never leaves its waiter blocked (C02_no_lost_wakeup), a timeout needs an expired deadline and an untaken or not yet produced result (C02_timeout_only_if_unfinished); the pre-fix code loses the wake-up (C02_old_lost_wakeup, by evaluation). Tie: pause points in the real wait/complete code let the harness force all 15 merges plus the late-completion and the two-pool schedule on a real pool with real threads; outcome and promptness are compared with the model's run of the same schedule. Known finding: a task taken by another pool of the process stores its result there.",
+        "text": "Theorems over every interleaving (inductive `Reach`, unbounded) of the waiter's take / register / re-check / block / final-take steps with the completer's insert / notify steps and the passing of the deadline: a returned value is the task's own outcome (C02_own_result), a finished task never leaves its waiter blocked (C02_no_lost_wakeup), a timeout needs an expired deadline and an untaken or not yet produced result (C02_timeout_only_if_unfinished); the pre-fix code loses the wake-up (C02_old_lost_wakeup, by evaluation). Tie: pause points in the real wait/complete code let the harness force all 15 merges plus the late-completion and the two-pool schedule on a real pool with real threads; outcome and promptness are compared with the model's run of the same schedule.",
         "note": "Trusted: Lean kernel; hand-written interleaving model (granularity = one DashMap or Mutex operation); pause hooks and gate controller; wall-clock promptness threshold. Partial: thread-level atomicity of DashMap/Condvar is assumed, not proved; multi-waiter and coroutine-waiter paths are not in this model.",
         "design_ref": "DESIGN.md §4 C02",
     },
